@@ -170,7 +170,7 @@ inductive Route
   | recoveryRegen
   | verifyStart (sms : Bool) | verifyEnd (sms : Bool)
   | protected_ (reqs fail_ : Nat) (mountPathed : Bool) (path : Bytes)
-  | open_ | lockmw | confirmmw
+  | open_ | lockmw | confirmmw | rootmw
   | notFound
 deriving DecidableEq, Repr
 
@@ -234,6 +234,7 @@ def dispatch (rt : Route) : H PUnit := do
   | .open_ => probe
   | .lockmw => lockMW probe
   | .confirmmw => confirmMW probe
+  | .rootmw => confirmMW (lockMW probe)
   | .notFound => status 404
 
 /-- The whole stack for one request. -/
